@@ -912,7 +912,7 @@ class _Fn:
             g = self.prog.method(base.cls, dunder) if base.cls else None
             if g is not None:
                 _, dirty = self.apply(g.key, [base, NONE, v], {}, node, handlers, dirty)
-            elif base.cls is None and base.own and isinstance(t.value, ast.Name) and self.is_doc(base.own) \
+            elif base.cls is None and base.own and isinstance(t.value, (ast.Name, ast.Call)) and self.is_doc(base.own) \
                     and isinstance(t.slice, ast.Name) and not self._index_like(t.slice, env):
                 # a document object of unknown class indexed by a key: any package mapping may be the receiver
                 d0, acc = dirty, dirty
